@@ -1,7 +1,9 @@
 (* C14 handler: run the extracted model of the keyset readers on a case line
    and print the canonical observation the Go harness prints.
    Lines:  B|<hex>                      binary keyset through the cleartext and no-secrets readers
-           J|<json hex>|<bin hex or X>  JSON keyset (bin = the same message in binary, X = not parseable)
+           J|<json hex>|<bin hex or X>  JSON keyset TEXT: parsed by the model itself (model/JsonKeyset.v); bin = the
+                                        message protojson made of it (X = refused), compared with the model's parse
+           F|<kek>|<ad>|<json hex>|<canon or X>  JSON EncryptedKeyset TEXT through the encrypted reader; canon likewise
            M|<bin hex>|<nil injections> proto-message API (nil keyset / nil key / nil key data)
            E|<kek>|<ad>|<hex>           encrypted keyset, AES-GCM key-encryption key
            P|<KeyTemplate hex>          protoserialization.ParseParameters on the decoded template
@@ -116,7 +118,30 @@ let inject (ks : keyset option) (inj : string) : keyset option =
 let handle line =
   match String.split_on_char '|' line with
   | ["B"; h; _] -> both_bin (unhex h)
-  | ["J"; _; bin; _] -> if bin = "X" then "c:err|n:err" else both_bin (unhex bin)
+  | ["J"; text; bin; _] ->
+    let text = unhex text in
+    (* the correspondence of the text layer: the model's own parse against protojson's *)
+    let own = json_keyset text in
+    let theirs = if bin = "X" then None else
+        (match decode_keyset (unhex bin) with Some ks -> Some ks | None -> failwith "the binary form in the line does not decode") in
+    if own <> theirs then
+      failwith ("json text layer: the model " ^ (match own with None -> "refuses" | Some _ -> "accepts")
+                ^ " the text, protojson " ^ (match theirs with None -> "refuses it" | Some _ -> "accepts it (or yields another message)"));
+    "c:" ^ out (xread_json std text) ^ "|n:" ^ out (xread_json_no_secrets std text)
+  | ["F"; kek; ad; text; canon; _] ->
+    let kek = unhex kek and text = unhex text in
+    let show_enc (e : jencrypted) =
+      "ct=" ^ hexs e.je_ct ^ ";info=" ^
+      (match e.je_info with
+       | None -> "~"
+       | Some i -> dec_of_n i.jn_primary ^ "/" ^ String.concat "," (List.map (fun (k : jkeyinfo) ->
+           hexs k.ji_url ^ "." ^ dec_of_n k.ji_status ^ "." ^ dec_of_n k.ji_id ^ "." ^ dec_of_n k.ji_prefix) i.jn_keys)) in
+    let own = (match encrypted_of_json_text text with None -> "X" | Some e -> show_enc e) in
+    if own <> canon then failwith ("json text layer: the model reads the EncryptedKeyset text as " ^ own ^ ", protojson as " ^ canon);
+    let dec (ct : n list) (ad : n list) : n list option =
+      if List.length ct < 28 then None
+      else ocall_opt "gcm_open" [] [kek; take_l 12 ct; ad; drop_l 12 ct] in
+    "e:" ^ out (xread_json_encrypted std dec text (unhex ad))
   | ["M"; bin; inj; _] ->
     (match decode_keyset (unhex bin) with
      | None -> "c:err|n:err"
